@@ -49,6 +49,10 @@ const readerContact = `{"uuid":"5d76d86b-3bb9-4d5a-b822-c9d86f5d8e4f","id":7,"na
 "fields":{"gender":{"text":"Male"},"age":{"text":"21","number":21},"joined":{"text":"2018-03-27T10:30:00Z","datetime":"2018-03-27T10:30:00.000000Z"}},
 "ticket":{"uuid":"78d1fe0d-7e39-461e-81c3-a6a25f15ed69","topic":{"uuid":"472a7a73-96cb-4736-b567-056d987cc5b4","name":"Weather"},"assignee":null}}`
 
+const readerRunSummary = `{"uuid":"4213ac47-93fd-48c4-af12-7da8218ef09d","flow":{"uuid":"00000001-0000-4000-8000-000000000099","name":"Parent"},
+"contact":{"uuid":"c59b0033-e748-4240-9d4c-e85eb6800151","name":"Bob","created_on":"2018-01-01T12:00:00.000000Z","fields":{"gender":{"text":"M"}},"groups":[{"uuid":"b7cf0d83-f1c9-411c-96fd-c511a4cfa86d","name":"Testers"}]},"status":"active",
+"results":{"age":{"name":"Age","value":"33","category":"Adult","node_uuid":"00000002-0000-4000-8000-000000000101","created_on":"2018-01-01T12:00:00.000000Z","input":"33"}}}`
+
 const readerEnv = `{"date_format":"DD-MM-YYYY","time_format":"tt:mm","timezone":"America/Guayaquil","allowed_languages":["eng","fra"],"default_country":"US","redaction_policy":"none"}`
 
 func readerAssets() json.RawMessage {
@@ -153,7 +157,7 @@ func readerSeeds(sa flows.SessionAssets) ([]readerSeed, error) {
 	trigs := map[string]flows.Trigger{
 		"manual":      triggers.NewBuilder(env, flow(1), contact).Manual().WithParams(nil).Build(),
 		"msg":         triggers.NewBuilder(env, flow(1), contact).Msg(msgIn("hello")).Build(),
-		"flow_action": triggers.NewBuilder(env, flow(2), contact).FlowAction(&flows.SessionHistory{ParentUUID: "8a1a6a3c-2b1c-4f5d-9a3e-1c2d3e4f5a6b", Ancestors: 1, AncestorsSinceInput: 1}, json.RawMessage(parentRunSummary)).Build(),
+		"flow_action": triggers.NewBuilder(env, flow(2), contact).FlowAction(&flows.SessionHistory{ParentUUID: "8a1a6a3c-2b1c-4f5d-9a3e-1c2d3e4f5a6b", Ancestors: 1, AncestorsSinceInput: 1}, json.RawMessage(readerRunSummary)).Build(),
 		"voice":       triggers.NewBuilder(env, flow(3), contact).Manual().WithCall(assets.NewChannelReference(assets.ChannelUUID(channelUUID), "Twilio"), urns.URN("tel:+12065551212")).Build(),
 	}
 	names := make([]string, 0, len(trigs))
@@ -358,6 +362,7 @@ func runReaderCase(c *ReaderCase, sa flows.SessionAssets, res *hx.Result) {
 	eng := engine.NewBuilder().Build()
 	var err error
 	var s flows.Session
+	var trig flows.Trigger
 	res.OracleChecks++
 	p, site, h := guardedSite(func() {
 		switch c.Reader {
@@ -366,7 +371,7 @@ func runReaderCase(c *ReaderCase, sa flows.SessionAssets, res *hx.Result) {
 		case "contact":
 			_, err = flows.ReadContact(sa, c.Document, assets.IgnoreMissing)
 		case "trigger":
-			_, err = triggers.ReadTrigger(sa, c.Document, assets.IgnoreMissing)
+			trig, err = triggers.ReadTrigger(sa, c.Document, assets.IgnoreMissing)
 		case "resume":
 			_, err = resumes.ReadResume(sa, c.Document, assets.IgnoreMissing)
 		case "modifier":
@@ -394,6 +399,15 @@ func runReaderCase(c *ReaderCase, sa flows.SessionAssets, res *hx.Result) {
 		var p any
 		if p, site, h = guardedSite(func() { _, err = s.Resume(r) }); p != nil || h {
 			fail("resume-panic", fmt.Sprintf("the session read back (%s, mutation %s); Resume on it panicked or hung: %v", c.Seed, c.Mutation, p))
+			return
+		}
+	}
+	if trig != nil {
+		// a trigger that reads back starts a session without a panic (an error value is fine)
+		res.OracleChecks++
+		var p any
+		if p, site, h = guardedSite(func() { _, _, err = eng.NewSession(sa, trig) }); p != nil || h {
+			fail("start-panic", fmt.Sprintf("the trigger read back (%s, mutation %s); NewSession with it panicked or hung: %v", c.Seed, c.Mutation, p))
 			return
 		}
 	}
